@@ -1,5 +1,6 @@
 import HC.Worker.Invariants
 import HC.Extracted.LifespanSend
+import HC.Worker.Escape
 /-!
 # C14 — Lifespan ordering, failure handling, state isolation
 
@@ -539,5 +540,221 @@ example : (run (W.init .asyncio cfg0 [.recv, .sendStartupComplete, .recv] 10)
     [.lifeWrite 7 1, .app, .srv, .app, .srv, .lifeWrite 8 2, .connect .h1]).map
     (fun s => (s.mem.heap 0, s.conns.map (fun c => s.mem.heap c.ref))) =
     some ([(8, 2), (7, 1)], [[(8, 2), (7, 1)]]) := by decide
+
+/-! ### what escapes the application is a tree of exceptions
+
+An application that runs its lifespan inside task groups / nurseries (anyio, Starlette) does not raise a bare
+`LifespanFailureError` when it sends `lifespan.startup.failed`: the exception leaves the application wrapped in one
+`ExceptionGroup` per task group, possibly next to other exceptions.  `HC/Worker/Escape.lean` models the `except` chain of
+`handle_lifespan` as a function on such trees, parameterised by what the extractor reads off both workers
+(`HC/Extracted/LifespanSites.lean`).  The clauses below are what the lifespan model (whose `AppExc` is the *verdict* of that
+chain) relies on. -/
+
+open HC.Extracted.LifespanSites in
+/-- the `except` chain the lifespan model assumes: `LifespanFailureError` and the cancellation class are re-raised as they
+    are; a group is searched **through every level** (`error.subgroup(...)`) for the same two classes and what is found is
+    re-raised; anything else makes the application unsupported -/
+def expectedEscapeHandler : EscapeHandler :=
+  { reraise := [.lifespanFailure, .cancelled], caught := [.group, .exception],
+    search := .subgroup [.lifespanFailure, .cancelled], marksUnsupported := true }
+
+open HC.Extracted.LifespanSites in
+/-- **`handle_lifespan` of both workers is that chain** (decided on the extracted source shape) -/
+theorem escape_handler_searches_every_level :
+    asyncioEscapeHandler = expectedEscapeHandler ∧ trioEscapeHandler = expectedEscapeHandler := by decide
+
+open HC.Extracted.LifespanSites in
+/-- the handlers of the two worker classes as the code is now -/
+def CurrentHandler (h : EscapeHandler) : Prop := h = asyncioEscapeHandler ∨ h = trioEscapeHandler
+
+open HC.Extracted.LifespanSites in
+theorem currentHandler_eq (h : EscapeHandler) (hc : CurrentHandler h) : h = expectedEscapeHandler := by
+  rcases hc with rfl | rfl
+  · exact escape_handler_searches_every_level.1
+  · exact escape_handler_searches_every_level.2
+
+private theorem isa_fc (e : Exc) : e.isaAny [.lifespanFailure, .cancelled] = true ↔ e ≠ .other := by
+  cases e <;> simp [Exc.isaAny, Exc.isa]
+
+/-- **any tree that contains a `LifespanFailureError` - at whatever depth, next to whatever else - is re-raised**: the
+    lifespan task ends with a tree that still contains that failure and nothing but failures and cancellations, i.e. for the
+    lifespan model the application *failed* (it is never filed under "does not support lifespan") -/
+theorem failure_leaf_aborts (h : HC.Extracted.LifespanSites.EscapeHandler) (hc : CurrentHandler h) (t : ExcTree) (st : Stage)
+    (hl : Exc.failure st ∈ t.leaves) :
+    ∃ t', handle h t = .reraise t' ∧ Exc.failure st ∈ t'.leaves ∧ (∀ x ∈ t'.leaves, x ≠ .other) ∧
+      ∃ st', (handle h t).appExc = some (.failure st') := by
+  rw [currentHandler_eq h hc]
+  cases t with
+  | leaf e =>
+    simp only [ExcTree.leaves, List.mem_singleton] at hl
+    subst hl
+    refine ⟨.leaf (.failure st), by simp [handle, expectedEscapeHandler, Exc.isaAny, Exc.isa], by simp [ExcTree.leaves],
+      by simp [ExcTree.leaves], st, by simp [handle, expectedEscapeHandler, Exc.isaAny, Exc.isa, Verdict.appExc, ExcTree.leaves, firstFailure]⟩
+  | group ts =>
+    have spec := ExcTree.subgroup_spec [.lifespanFailure, .cancelled] (by decide) (.group ts)
+    have hmem : Exc.failure st ∈ (ExcTree.group ts).leaves.filter (fun e => e.isaAny [.lifespanFailure, .cancelled]) := by
+      simp [List.mem_filter, hl, Exc.isaAny, Exc.isa]
+    cases hs : (ExcTree.group ts).subgroup [.lifespanFailure, .cancelled] with
+    | none =>
+      have := spec.2.mp hs
+      rw [this] at hmem
+      simp at hmem
+    | some t' =>
+      have hlv := spec.1 t' hs
+      have hv : handle expectedEscapeHandler (.group ts) = .reraise t' := by
+        simp only [handle, expectedEscapeHandler, caughtVerdict]
+        simp [hs]
+      refine ⟨t', hv, by rw [hlv]; exact hmem, ?_, ?_⟩
+      · intro x hx
+        rw [hlv, List.mem_filter] at hx
+        exact (isa_fc x).mp hx.2
+      · obtain ⟨st', hst'⟩ := firstFailure_some_of_mem st t'.leaves (by rw [hlv]; exact hmem)
+        exact ⟨st', by simp [hv, Verdict.appExc, hst']⟩
+
+/-- **a tree of other exceptions only (no failure, no cancellation) makes the application unsupported** - the server goes on
+    without lifespan, as for a bare exception -/
+theorem other_only_unsupported (h : HC.Extracted.LifespanSites.EscapeHandler) (hc : CurrentHandler h) (t : ExcTree)
+    (hl : ∀ x ∈ t.leaves, x = .other) : handle h t = .unsupported := by
+  rw [currentHandler_eq h hc]
+  cases t with
+  | leaf e =>
+    have := hl e (by simp [ExcTree.leaves])
+    subst this
+    simp [handle, expectedEscapeHandler, caughtVerdict, Exc.isaAny, Exc.isa]
+  | group ts =>
+    have spec := ExcTree.subgroup_spec [.lifespanFailure, .cancelled] (by decide) (.group ts)
+    have hnone : (ExcTree.group ts).subgroup [.lifespanFailure, .cancelled] = none := by
+      apply spec.2.mpr
+      rw [List.filter_eq_nil_iff]
+      intro x hx
+      rw [hl x hx]
+      simp [Exc.isaAny, Exc.isa]
+    simp only [handle, expectedEscapeHandler, caughtVerdict]
+    simp [hnone]
+
+/-- a cancellation inside a group (a cancelled application that sits in nurseries) is re-raised, never logged as an error of
+    the application -/
+theorem cancelled_leaf_reraised (h : HC.Extracted.LifespanSites.EscapeHandler) (hc : CurrentHandler h) (t : ExcTree)
+    (hl : Exc.cancelled ∈ t.leaves) : ∃ t', handle h t = .reraise t' ∧ Exc.cancelled ∈ t'.leaves := by
+  rw [currentHandler_eq h hc]
+  cases t with
+  | leaf e =>
+    simp only [ExcTree.leaves, List.mem_singleton] at hl
+    subst hl
+    exact ⟨.leaf .cancelled, by simp [handle, expectedEscapeHandler, Exc.isaAny, Exc.isa], by simp [ExcTree.leaves]⟩
+  | group ts =>
+    have spec := ExcTree.subgroup_spec [.lifespanFailure, .cancelled] (by decide) (.group ts)
+    have hmem : Exc.cancelled ∈ (ExcTree.group ts).leaves.filter (fun e => e.isaAny [.lifespanFailure, .cancelled]) := by
+      simp [List.mem_filter, hl, Exc.isaAny, Exc.isa]
+    cases hs : (ExcTree.group ts).subgroup [.lifespanFailure, .cancelled] with
+    | none =>
+      have := spec.2.mp hs
+      rw [this] at hmem
+      simp at hmem
+    | some t' =>
+      refine ⟨t', ?_, by rw [spec.1 t' hs]; exact hmem⟩
+      simp only [handle, expectedEscapeHandler, caughtVerdict]
+      simp [hs]
+
+/-- **a script behaves under any nest of task groups as it does bare**: for every wrap that lets the script's own exception
+    through (`hasOwn`; the other members of the groups are other exceptions), `translate` - the script as the server
+    experiences it - is the script itself.  Hence every theorem of this file about scripts (`failed_or_timeout_aborts`,
+    `startup_before_serving`, `raised_is_unsupported` …) holds for the script run inside task groups / nurseries of any depth. -/
+theorem wrapped_script_is_script (h : HC.Extracted.LifespanSites.EscapeHandler) (hc : CurrentHandler h) (w : Wrap)
+    (hw : w.hasOwn = true) (script : List LAct) : translate h w script = some script := by
+  have key : ∀ a : LAct, translateAct h w a = some a := by
+    intro a
+    unfold translateAct
+    cases hr : a.raises with
+    | none => rfl
+    | some e =>
+      have hfl := Wrap.fill_leaves e w
+      cases e with
+      | failure st =>
+        obtain ⟨t', hv, _, hall, _⟩ := failure_leaf_aborts h hc (w.fill (.failure st)) st (hfl.2 hw)
+        have hall' : ∀ x ∈ t'.leaves, x = Exc.failure st := by
+          intro x hx
+          have hsub : x ∈ (w.fill (.failure st)).leaves := by
+            rw [currentHandler_eq h hc] at hv
+            cases hwf : w.fill (.failure st) with
+            | leaf e' =>
+              rw [hwf] at hv
+              cases e' <;> simp [handle, expectedEscapeHandler, caughtVerdict, Exc.isaAny, Exc.isa] at hv
+              all_goals (subst hv; exact hx)
+            | group ts =>
+              rw [hwf] at hv
+              have spec := ExcTree.subgroup_spec [.lifespanFailure, .cancelled] (by decide) (.group ts)
+              cases hs : (ExcTree.group ts).subgroup [.lifespanFailure, .cancelled] with
+              | none =>
+                simp only [handle, expectedEscapeHandler, caughtVerdict] at hv
+                simp [hs] at hv
+              | some t'' =>
+                simp only [handle, expectedEscapeHandler, caughtVerdict] at hv
+                simp [hs] at hv
+                subst hv
+                rw [spec.1 t'' hs, List.mem_filter] at hx
+                exact hx.1
+          rcases hfl.1 x hsub with h1 | h1
+          · exact h1
+          · exact absurd h1 (hall x hx)
+        have hne : t'.leaves ≠ [] := by
+          intro he
+          obtain ⟨_, _, hm, _⟩ := failure_leaf_aborts h hc (w.fill (.failure st)) st (hfl.2 hw)
+          rename_i t2 _
+          simp_all
+        have hff := firstFailure_of_all st t'.leaves hne hall'
+        simp [hv, Verdict.appExc, hff]
+      | cancelled => cases a <;> simp [LAct.raises] at hr
+      | other =>
+        have hv := other_only_unsupported h hc (w.fill .other) (by
+          intro x hx
+          rcases hfl.1 x hx with h1 | h1 <;> exact h1)
+        simp [hv, Verdict.appExc]
+  unfold translate
+  induction script with
+  | nil => rfl
+  | cons a rest ih => simp [List.mapM_cons, key a, ih]
+
+open HC.Extracted.LifespanSites in
+/-- the hypothesis is needed: a handler that only scans the *direct* members of the group (`error.exceptions`) does not find a
+    failure that sits one level deeper - `lifespan.startup.failed` sent from inside two task groups would make the application
+    "unsupported" and the server would serve -/
+theorem direct_scan_misses_nested :
+    (handle { expectedEscapeHandler with search := .directMembers [.lifespanFailure, .cancelled] }
+      (.group [.group [.leaf (.failure .startup)]])).isUnsupported = true ∧
+    translate { expectedEscapeHandler with search := .directMembers [.lifespanFailure, .cancelled] } (Wrap.nest 2)
+      [.recv, .sendStartupFailed] = some [.recv, .sendUnknown] := by decide
+
+-- non-vacuity: depth 1, 2, 3 and mixed trees on the handlers as they are
+example : (handle HC.Extracted.LifespanSites.asyncioEscapeHandler ((Wrap.nest 3).fill (.failure .startup))).reraised =
+    some [.failure .startup] := by decide
+example : (handle HC.Extracted.LifespanSites.trioEscapeHandler
+    (.group [.leaf .other, .group [.leaf .other, .group [.leaf (.failure .startup)], .leaf .cancelled]])).reraised =
+    some [.failure .startup, .cancelled] := by decide
+example : (handle HC.Extracted.LifespanSites.trioEscapeHandler (.group [.leaf .other, .group [.leaf .other]])).isUnsupported = true := by
+  decide
+example : (Wrap.group [.sibling, .group [.own, .sibling]]).hasOwn = true := by decide
+
+/-! ### the per-connection state is an unconditional copy -/
+
+open HC.Extracted.LifespanSites in
+/-- **every connection gets `ConnectionState(self.state.copy())` - a fresh dict, whatever the state holds (also when it is
+    empty)** on both workers; the dict copied is the live lifespan state on asyncio and the copy taken when serving started on
+    trio (`Runtime.stateCopiedAtServe`).  This is what `W.accept` (a fresh heap cell per connection) models; decided on the
+    argument expressions the extractor reads from `TCPServer.run` and `worker_serve` of both workers. -/
+theorem conn_state_unconditional_copy :
+    asyncioConnStateArg = .copy ∧ trioConnStateArg = .copy ∧
+    (asyncioServeStateArg = .shared ∧ Runtime.asyncio.stateCopiedAtServe = false) ∧
+    (trioServeStateArg = .copy ∧ Runtime.trio.stateCopiedAtServe = true) := by decide
+
+-- an EMPTY lifespan state: both connections start empty, each sees only its own write, the lifespan state stays empty
+example : (run (W.init .asyncio cfg0 [.recv, .sendStartupComplete, .recv] 10)
+    [.app, .srv, .app, .srv, .connect .h1, .connWrite 0 7 10, .connect .h1, .connWrite 1 7 11]).map
+    (fun s => (s.mem.heap 0, s.conns.map (fun c => s.mem.heap c.ref))) =
+    some ([], [[(7, 10)], [(7, 11)]]) := by decide
+example : (run (W.init .trio cfg0 [.raise] 10)
+    [.app, .app, .srv, .connect .h1, .connWrite 0 7 10, .connect .h1]).map
+    (fun s => (s.mem.heap 0, s.conns.map (fun c => s.mem.heap c.ref))) =
+    some ([], [[(7, 10)], []]) := by decide
 
 end HC.Props.C14
